@@ -51,6 +51,10 @@ def bulk_entry(kind, i):
     if kind == 11: return [i + 1, ['rtc', 2, 65000 + i % 100, [0, 2, 253, 232, 0] + b3(i)]]
     if kind == 12: return [i + 1, ['srp', i, 100 + i % 3, [10] + b3(i)]]
     if kind == 13: return [i + 1, ['evpn', 5, [0, 2, 0, 1, 0] + b3(i), pat_bytes(10, i), i, i % 129, v6, pat_bytes(16, i + 1), 7]]
+    if kind == 16:
+        return [i + 1, ['ls', 3, 1 + i % 7, i, [[512, [(65000 + i % 9) >> 24 & 255, (65000 + i % 9) >> 16 & 255, (65000 + i % 9) >> 8 & 255, (65000 + i % 9) & 255]],
+                                                 [515, pat_bytes(4, i)]],
+                        [[263, [(i % 4096) >> 8, (i % 4096) & 255]], [265, [24] + b3(i)]]]]
     if kind == 15: return [i + 1, ['mup', 3, [0, 0, 253, 232, 0] + b3(i), i % 33, [10] + b3(i), i, i % 64, [192, 0, 2, 1], None if i % 2 == 0 else [198, 51, 100, 7]]]
     if kind == 14: return [i + 1, ['fs', 1, [0, 0, 253, 232, 0] + b3(i), [['o', 3, [[129, 6]]], ['o', 5, [[3, 1000 + i % 50000], [197, 70000]]]]]]
     raise ValueError(kind)
@@ -88,6 +92,14 @@ def nlri_val(n):
         if k == 2: return [12, 2, n[2], n[3], n[4], n[5], n[6], n[7], [] if n[8] is None else [n[8]]]
         return [12] + list(n[1:])
     if t == 'srp': return [13, n[1], n[2], n[3]]
+    if t == 'ls':
+        tl = lambda l: [[x[0], list(x[1])] for x in l]
+        k = n[1]
+        if k == 0: return [15, 0, n[2], n[3]]
+        if k == 1: return [15, 1, n[2], n[3], tl(n[4])]
+        if k == 2: return [15, 2, n[2], n[3], tl(n[4]), tl(n[5]), tl(n[6])]
+        if k in (3, 4): return [15, k, n[2], n[3], tl(n[4]), tl(n[5])]
+        return [15, 6, n[2], n[3], tl(n[4]), tl(n[5])]
     if t == 'mup':
         if n[1] == 3: return [14, 3, n[2], n[3], n[4], n[5], n[6], n[7], [] if n[8] is None else [n[8]]]
         return [14] + list(n[1:])
@@ -117,6 +129,15 @@ def nlri_coq(n):
         else: e = 'Ev5 %s %s %s %s %s %s %s' % (cbytes(n[2]), cbytes(n[3]), cN(n[4]), cN(n[5]), cbytes(n[6]), cbytes(n[7]), cN(n[8]))
         return '(NEvpn (%s))' % e
     if t == 'srp': return '(NSrp %s %s %s)' % (cN(n[1]), cN(n[2]), cbytes(n[3]))
+    if t == 'ls':
+        tl = lambda l: clist([cpair(cN(x[0]), cbytes(x[1])) for x in l])
+        k = n[1]
+        if k == 0: e = 'LsOther %s %s' % (cN(n[2]), cbytes(n[3]))
+        elif k == 1: e = 'LsNode %s %s %s' % (cN(n[2]), cN(n[3]), tl(n[4]))
+        elif k == 2: e = 'LsLink %s %s %s %s %s' % (cN(n[2]), cN(n[3]), tl(n[4]), tl(n[5]), tl(n[6]))
+        elif k in (3, 4): e = 'LsPfx %s %s %s %s %s' % (cbool(k == 4), cN(n[2]), cN(n[3]), tl(n[4]), tl(n[5]))
+        else: e = 'LsSrv6 %s %s %s %s' % (cN(n[2]), cN(n[3]), tl(n[4]), tl(n[5]))
+        return '(NLs (%s))' % e
     if t == 'mup':
         k = n[1]
         if k == 1: e = 'Mup1 %s %s %s' % (cbytes(n[2]), cN(n[3]), cbytes(n[4]))
